@@ -1,4 +1,5 @@
 import HpoProofs.Compare
+import HpoProps.C07
 /-!
 # C18 — ontology comparison reports exactly the differences
 
@@ -230,5 +231,18 @@ example : changedRecs .omim exL exR =
   decide
 
 example : changedTerms exL exL = .ok [] := by decide
+
+/-- **Round trip.** Comparing an ontology with its binary round trip reports nothing: for every
+ontology reachable through the Builder route (`Reachable`, C07) whose names fit the 255-byte limit,
+`from_bytes(as_bytes(o))` *is* `o` (`C07_roundtrip_identity`), so the comparison is the
+self-comparison of `C18_self`. -/
+theorem C18_roundtrip (o : Onto) (hr : Hpo.Binary.Reachable o) (he : Hpo.Binary.EncOK o)
+    (hs : o.slot0 = placeholder) (ht : ∀ t ∈ o.terms, (Proto.utf8 t.name).length ≤ 255)
+    (hgn : ∀ r ∈ o.genes, (Proto.utf8 r.name).length ≤ 255)
+    (hk : KeysOk o) (hp : ParentsResolve o) (hg : ∀ k, RecKeysOk (o.recs k)) :
+    ∃ o', Hpo.Binary.decodeBytes (Hpo.Binary.encodeOnto o) = .ok o' ∧
+      addedTerms o o' = [] ∧ removedTerms o o' = [] ∧ changedTerms o o' = .ok [] ∧
+      ∀ k, addedRecs k o o' = [] ∧ removedRecs k o o' = [] ∧ changedRecs k o o' = [] :=
+  ⟨o, Hpo.C07.C07_roundtrip_identity o hr he hs ht hgn, C18_self o hk hp hg⟩
 
 end Hpo.C18
